@@ -530,6 +530,26 @@ def r_distributive_guards(prog: Program, col: Collector, refs: Refs, cat: Catalo
                     and not reduces_fresh_foreign(exprs, f):
                 col.ok(construct, "re-brackets under the contraction's own (sum, product) pair only: covered by the supported-semiring premise of the term being rewritten", f.loc(ret))
                 continue
+            # distributing over the terms of an inner contraction v (a comprehension over v.terms) is only valid when v has no
+            # reduction of its own: a * max_j(b + c) is not max_j(a*b) + max_j(a*c)
+            inner_terms = [x.value.id for e in exprs for x in ast.walk(e) if isinstance(x, ast.Attribute) and x.attr == "terms" and isinstance(x.value, ast.Name)
+                           and x.value.id not in f.positional and any(isinstance(g, (ast.GeneratorExp, ast.ListComp)) and norm(g.generators[0].iter) == norm(x) for g in ast.walk(e))]
+            if inner_terms and guards:
+                v_ = inner_terms[0]
+                no_red = False
+                for anc in mod.ancestors(ret):
+                    if anc is f.node:
+                        break
+                    if isinstance(anc, ast.If) and any(ret is y for b_ in anc.body for y in ast.walk(b_)):
+                        conj = anc.test.values if isinstance(anc.test, ast.BoolOp) and isinstance(anc.test.op, ast.And) else [anc.test]
+                        for c_ in conj:
+                            if isinstance(c_, ast.Compare) and len(c_.ops) == 1 and isinstance(c_.ops[0], ast.Is) and {norm(c_.left), norm(c_.comparators[0])} & {f"{v_}.red_op"} \
+                                    and {norm(c_.left), norm(c_.comparators[0])} & {"ops.null", "null"}:
+                                no_red = True
+                if not no_red:
+                    col.violation(construct, f"the product is distributed over the terms of `{v_}` without requiring `{v_}.red_op is ops.null`: an inner contraction that reduces "
+                                  f"(a * max_j(b + c)) is not the sum of the distributed terms", f.loc(ret))
+                    continue
             if not guards:
                 col.violation(construct, "a contraction is re-nested / pushed under a reduction without testing that the op pair is declared distributive: "
                               "for a non-distributive pair the rewritten term has a different value", f.loc(ret))
@@ -937,11 +957,24 @@ def r_scope_extrusion(prog: Program, col: Collector, refs: Refs, cat: Catalogue,
                 construct = f"{f.fq}::{norm(ret)[:110]}"
                 # (i) an explicit freshness test earlier in the same loop body / enclosing the return
                 fresh = False
+                kind_mismatch = None
                 for n in walk_no_nested(f.node):
                     if isinstance(n, ast.If) and n.lineno < ret.lineno:
+                        # the test with single-definition locals inlined (`sibling_vars = union(...)`; `if v.reduced_vars & sibling_vars`)
                         txt_nodes = list(ast.walk(n.test))
-                        mentions_bound = any(isinstance(x, ast.Attribute) and x.attr in ("reduced_vars", "bound") and isinstance(x.value, ast.Name) and x.value.id == vname for x in txt_nodes)
-                        mentions_inputs = any(isinstance(x, ast.Attribute) and x.attr in ("input_vars", "inputs") for x in txt_nodes)
+                        for x in list(txt_nodes):
+                            if isinstance(x, ast.Name) and len(local_defs.get(x.id, [])) == 1:
+                                txt_nodes += list(ast.walk(local_defs[x.id][0].value))
+                        bound_attrs = {x.attr for x in txt_nodes if isinstance(x, ast.Attribute) and x.attr in ("reduced_vars", "bound") and isinstance(x.value, ast.Name) and x.value.id == vname}
+                        input_attrs = {x.attr for x in txt_nodes if isinstance(x, ast.Attribute) and x.attr in ("input_vars", "inputs")}
+                        mentions_bound = bool(bound_attrs)
+                        mentions_inputs = bool(input_attrs)
+                        # Variables are compared with Variables (reduced_vars / input_vars), names with names (bound / inputs)
+                        if mentions_bound and mentions_inputs:
+                            consistent = ("reduced_vars" in bound_attrs and "input_vars" in input_attrs) or ("bound" in bound_attrs and "inputs" in input_attrs)
+                            if not consistent:
+                                kind_mismatch = n
+                                mentions_inputs = False
                         # names used in the test that are locals derived from the sibling slices
                         exits = any(isinstance(b, (ast.Continue, ast.Return)) for b in n.body)
                         encloses = any(ret is y for b in n.body for y in ast.walk(b))
@@ -972,6 +1005,9 @@ def r_scope_extrusion(prog: Program, col: Collector, refs: Refs, cat: Catalogue,
                             vac = True
                 if vac:
                     col.ok(construct, f"vacuous: in every case of the enclosing condition `{vname}` binds nothing or has no sibling", f.loc(ret))
+                elif kind_mismatch is not None:
+                    col.violation(construct, f"the freshness test `{norm(kind_mismatch.test)[:80]}` intersects Variable objects (`reduced_vars`) with input NAMES (`.inputs`): "
+                                  "the two never have an element in common, so the test never fires and the binders are moved over siblings that mention them", f.loc(kind_mismatch))
                 else:
                     col.violation(construct, f"the variables bound in `{vname}` are moved outward over its sibling operands without testing that no sibling mentions them: "
                                   f"a subterm that occurs twice (v * v with v a lazy reduction) carries the same bound names in both places, and the merged scope "
@@ -1169,4 +1205,112 @@ def r_absent_vars_kernel(prog: Program, col: Collector, refs: Refs, cat: Catalog
                 col.violation(construct, "the variables no operand mentions are split off but never reduced: their multiplicity is lost", mod.loc(call))
             else:
                 col.unresolved(construct, f"variable set argument `{norm(arg)}` not recognised", mod.loc(call))
+
+
+# ---------------------------------------------------------------------- a rule selected for a parametrised op uses the op
+
+
+def r_op_params_used(prog: Program, col: Collector, refs: Refs, cat: Catalogue, rule: str):
+    """A rule registered for (Unary | Binary | Finitary | Reduce, <op class>, ...) whose op class covers ops that carry parameters
+    (getitem's offset, a reduction's axis / keepdims, reshape's shape ...) receives the *instance* with its parameters as first
+    argument.  If the rule never mentions that argument, its result cannot depend on the parameters: it computes the answer for
+    the default-parametrised op whatever was asked."""
+    col.rule(rule, "rules registered for parametrised ops use the op instance they are given", floor=10)
+    seen = set()
+    for reg in cat.registrations:
+        f = reg.target
+        if f is None or not reg.pattern or len(reg.pattern) < 2 or isinstance(f.node, ast.Lambda) or f.fq in seen:
+            continue
+        if not reg.registry.startswith("funsor.interpretations."):
+            continue
+        head = refs.resolve(reg.pattern[0]) if isinstance(reg.pattern[0], (ast.Name, ast.Attribute)) else None
+        if head not in ("funsor.terms.Unary", "funsor.terms.Binary", "funsor.terms.Finitary", "funsor.terms.Reduce"):
+            continue
+        ref = cat.op_class_ref(refs.resolve(reg.pattern[1]) if isinstance(reg.pattern[1], (ast.Name, ast.Attribute)) else None)
+        if ref is None:
+            continue
+        withp = [o for o in cat.ops_under(ref) if o.params]
+        if not withp or not f.positional:
+            continue
+        seen.add(f.fq)
+        opn = f.positional[0]
+        uses = any(isinstance(x, ast.Name) and x.id == opn and isinstance(x.ctx, ast.Load) for x in ast.walk(f.node))
+        declines = all(isinstance(s_, (ast.Raise, ast.Expr)) or (isinstance(s_, ast.Return) and (s_.value is None or (isinstance(s_.value, ast.Constant) and s_.value.value is None)))
+                       for s_ in f.body)
+        construct = f"{f.fq}::uses `{opn}`"
+        if uses or declines:
+            col.ok(construct, "the rule reads / applies / forwards the op instance" if uses else "the rule only declines", f.loc(), nontrivial=uses)
+        else:
+            col.violation(construct, f"the rule is selected for {', '.join(o.var for o in withp[:3])}{'...' if len(withp) > 3 else ''} (parameters {withp[0].params}) but never mentions its op argument `{opn}`: "
+                          "the parameters of the op instance cannot influence the result", f.loc())
+
+
+# ---------------------------------------------------------------------- variables leave the outer reduction only with exact counts
+
+
+def r_exact_counts(prog: Program, col: Collector, refs: Refs, cat: Catalogue, rule: str):
+    """In the recursive eager contraction rule a set U of reduced variables is summed out inside k operands (k = 1: a single
+    leaf, k = 2: a pair) and removed from the outer reduction.  That is only sound if no OTHER operand mentions a variable of
+    U, i.e. U is drawn from the variables whose occurrence count is exactly k.  `count >= 2`, or intersecting all reduced
+    variables with the pair's inputs, sums a variable out while a third operand still depends on it."""
+    col.rule(rule, "variables summed out inside k operands occur in exactly k operands", floor=2)
+    n = 0
+    for r in cat.registrations:
+        f = r.target
+        if f is None or not r.pattern or isinstance(f.node, ast.Lambda) or refs.resolve(r.pattern[0]) != "funsor.cnf.Contraction" or len(f.positional) < 4:
+            continue
+        if not r.registry.startswith("funsor.interpretations."):
+            continue
+        V = f.positional[2]
+        defs: Dict[str, List[ast.AST]] = {}
+        for x in walk_no_nested(f.node):
+            if isinstance(x, ast.Assign) and len(x.targets) == 1 and isinstance(x.targets[0], ast.Name):
+                defs.setdefault(x.targets[0].id, []).append(x.value)
+        counters = {k for k, vs in defs.items() if any(isinstance(v, ast.Call) and norm(v.func).split(".")[-1] == "Counter" for v in vs)}
+        if not counters:
+            continue
+
+        def exact_filter(e, depth=0):
+            """k if e is drawn from {v : count == k} of an occurrence counter; 'loose' if from a non-exact filter or unfiltered V"""
+            if depth > 5:
+                return None
+            if isinstance(e, ast.Name):
+                if e.id == V:
+                    return "loose"
+                res = [exact_filter(d, depth + 1) for d in defs.get(e.id, [])]
+                res = [r_ for r_ in res if r_ is not None]
+                if not res:
+                    return None
+                return "loose" if "loose" in res else res[0]
+            for g in [x for x in ast.walk(e) if isinstance(x, (ast.GeneratorExp, ast.SetComp, ast.ListComp))]:
+                it = g.generators[0].iter
+                if isinstance(it, ast.Call) and isinstance(it.func, ast.Attribute) and it.func.attr == "items" and norm(it.func.value) in counters:
+                    for c in g.generators[0].ifs:
+                        if isinstance(c, ast.Compare) and len(c.ops) == 1 and isinstance(c.comparators[0], ast.Constant) and isinstance(c.comparators[0].value, int):
+                            return c.comparators[0].value if isinstance(c.ops[0], ast.Eq) else "loose"
+                    return "loose"
+            # e.g. reduced_once & term.input_vars, reduced_twice.intersection(lhs.input_vars, rhs.input_vars)
+            if isinstance(e, ast.BinOp) and isinstance(e.op, ast.BitAnd):
+                a, b = exact_filter(e.left, depth + 1), exact_filter(e.right, depth + 1)
+                for x_ in (a, b):
+                    if isinstance(x_, int):
+                        return x_
+                return a or b
+            if isinstance(e, ast.Call) and isinstance(e.func, ast.Attribute) and e.func.attr == "intersection":
+                return exact_filter(e.func.value, depth + 1)
+            return None
+
+        for sh in [x for x in walk_no_nested(f.node) if isinstance(x, ast.AugAssign) and isinstance(x.op, ast.Sub) and isinstance(x.target, ast.Name) and x.target.id == V]:
+            n += 1
+            k = exact_filter(sh.value)
+            construct = f"{f.fq}::{norm(sh)} (line order {sum(1 for y in walk_no_nested(f.node) if isinstance(y, ast.AugAssign) and y.lineno <= sh.lineno)})"
+            if isinstance(k, int):
+                col.ok(construct, f"`{norm(sh.value)}` is drawn from the variables that occur in exactly {k} operand(s)", f.loc(sh))
+            elif k == "loose":
+                col.violation(construct, f"`{norm(sh.value)}` is not restricted to variables with an exact occurrence count: a reduced variable that a further operand mentions "
+                              "is summed out early (sum_a x[a] y[a,b] z[a] becomes (sum_a x y) * z[a]: wrong value and a leaked input)", f.loc(sh))
+            else:
+                col.unresolved(construct, f"origin of `{norm(sh.value)}` not understood", f.loc(sh))
+    if not n:
+        col.unresolved("funsor.cnf::exact counts", "no rule that removes variables from the outer reduction of a counted contraction found", "funsor/cnf.py")
 
